@@ -202,6 +202,16 @@ def correspondence(ctx):
             add(f'C12 apc {din} {dout} {gl(G)} {rs}', lambda: gl(ch.apply_choi_op(G, rho)))
             add(f'C12 aps {din} {dout} {gl(H)} {rs}', lambda: gl(ch.apply_super_op(H, rho)))
             add(f'C12 hf2c {din} {dout} {gl(G)}', lambda: gl(ch.hf_channel_to_choi_op(lambda r: ch.apply_choi_op(G, r), din)))
+
+            def hf2s():
+                # hf_channel_to_kraus_op up to its call of super_op_to_kraus_op (intercepted: returns its argument)
+                orig = ch._internal.super_op_to_kraus_op
+                ch._internal.super_op_to_kraus_op = lambda S, *a, **k: S
+                try:
+                    return gl(ch._internal.hf_channel_to_kraus_op(lambda r: ch.apply_choi_op(G, r), din))
+                finally:
+                    ch._internal.super_op_to_kraus_op = orig
+            add(f'C12 hf2s {din} {dout} {gl(G)}', hf2s)
             ctx.count(f'dims-{din}x{dout}')
         # choi_op_to_kraus_op with intercepted eigh: ascending integer eigenvalues (some <= 0, the rest perfect squares)
         m = din * dout
@@ -228,7 +238,7 @@ def correspondence(ctx):
         t = op.split(' ')
         if t[1] in ('k2c', 'k2s', 'apk'):
             return int(t[3]) * int(t[4]) > 1
-        if t[1] in ('c2s', 's2c', 'apc', 'aps', 'hf2c', 'c2k'):
+        if t[1] in ('c2s', 's2c', 'apc', 'aps', 'hf2c', 'hf2s', 'c2k'):
             return int(t[2]) * int(t[3]) > 1
         return True
     common.compare(ctx, ops, impl, model, nontrivial=nontrivial)
@@ -436,6 +446,25 @@ def probe(ctx):
                         ctx.fail(key, msgs[0][0] + f' for a {kind} channel {din}->{dout}', dict(info, failed=[(m, float(v)) for m, v in msgs[:6]]))
                     else:
                         ctx.probe_ok(('contract', din, dout, kind, rep))
+    # fixed point through the Bloch map (as tests/test_channel.py does): the solution of (A-1) r = -b is a fixed point of the channel
+    for rep in range(6 if ctx.quick() else 40):
+        d = int(rng.integers(2, 5)); seed = int(rng.integers(0, 2 ** 31))
+        info = dict(op='channel-fixed-point', dim=d, seed=seed)
+        try:
+            K = numqi.random.rand_kraus_op(d * d, d, d, seed=seed)
+            C = ch.kraus_op_to_choi_op(K)
+            A, b = ch.choi_op_to_bloch_map(C.reshape(d, d, d, d))
+            M = A - np.eye(d * d - 1)
+            if np.linalg.cond(M) > 1e6:
+                continue
+            rho = numqi.gellmann.gellmann_basis_to_dm(np.linalg.solve(M, -b))
+            err = max(maxdiff(ch.apply_choi_op(C, rho), rho), maxdiff(ch.apply_kraus_op(K, rho), rho), abs(np.trace(rho) - 1))
+        except Exception as e:
+            ctx.fail('fixed-point-raises', f'{type(e).__name__}: {e}', info); continue
+        if err > 1e-8:
+            ctx.fail('channel-fixed-point', f'the Bloch-map fixed point is not fixed by the channel (error {err:.3e}, dim {d})', info)
+        else:
+            ctx.probe_ok(('fix', d, seed))
     # noise channels: CPTP for every rate
     for p in [0.0, 1.0] + [float(x) for x in rng.uniform(0, 1, size=20 if ctx.quick() else 300)]:
         for name, f in (('dephasing', ch.hf_dephasing_kraus_op), ('depolarizing', ch.hf_depolarizing_kraus_op), ('amplitude_damping', ch.hf_amplitude_damping_kraus_op)):
